@@ -400,7 +400,13 @@ func c17Runs(rt *rapid.T) *c17Case {
 	}
 	pad(padHead, "head")
 	run(rapid.IntRange(0, maxRun).Draw(rt, "runBefore"), "before")
-	tight := rapid.IntRange(0, 2).Draw(rt, "tightKeep") == 0
+	// a function directly above keep whose last statement an earlier change
+	// makes longer and behind which a later change appends a statement
+	appendAfterLong := rapid.IntRange(0, 5).Draw(rt, "appendAfterLong") == 0
+	if appendAfterLong {
+		b.WriteString("func setup() {\n\tprepare()\n\tstate = load()\n}\n\n")
+	}
+	tight := !appendAfterLong && rapid.IntRange(0, 2).Draw(rt, "tightKeep") == 0
 	if tight {
 		// the rewritten declaration stands directly above keep, and keep has
 		// a comment behind its opening brace
@@ -432,6 +438,10 @@ func c17Runs(rt *rapid.T) *c17Case {
 		// then something else
 		patch = "@@\n@@\n-compute\n+aVeryLongIdentifierNameThatGoesOnAndOnAndOnAndOnAndOnAndOnAndOnAndOn\n\n" +
 			"@@\n@@\n-aVeryLongIdentifierNameThatGoesOnAndOnAndOnAndOnAndOnAndOnAndOnAndOn\n+recompute()\n"
+	}
+	if appendAfterLong {
+		patch = "@@\n@@\n-load()\n+loadTheDefaultConfigurationFromDiskOrFromTheEnvironmentIfSet\n\n" +
+			"@@\n@@\n func setup() {\n   ...\n+  done()\n }\n\n" + patch
 	}
 	if rapid.Bool().Draw(rt, "alsoConst") {
 		patch += "\n@@\nvar n identifier\nvar v expression\n@@\n-const n = v\n+func n() any { return v }\n"
